@@ -476,7 +476,7 @@ def r8(F, R, w, mb):
             R.ok("C12-R8", key, site, "%s: the received command becomes the mailbox value" % p.split("::")[-1])
         else:
             R.bad("C12-R8", key, site, "%s: the command received here never reaches the mailbox variable the loop examines: a queued Pause / Resume is consumed and lost" % p.split("::")[-1])
-    R.floor("C12-R8", 3)
+    R.floor("C12-R8", 2)     # at least the non-blocking read of the loop and the blocking receive of the pause path
 
 
 def r7(F, R, w):
